@@ -56,6 +56,63 @@ C08SPEC = T.Dict([('n', T.Int(default=1)), ('l', T.List(T.Int(), default=[2, 1])
 """,
 }
 
+# Symbolic class kinds beyond plain pg.Object subclasses.  Every kind exposes
+# the attributes x / d / l so that the same operation set applies; preambles
+# are kept short (one per kind) because witnesses are size-limited.
+_KIND_FIELDS = 'x: A(default=1); d: A(default=None); l: A(default=None)'
+PRE.update({
+    'k-functor': """import pyglove as pg
+@pg.functor()
+def c08fn(x=1, d=None, l=None):
+  return x
+""",
+    'k-subfunctor': f"""import pyglove as pg
+A = pg.typing.Any
+class C08SubFn(pg.Functor):
+  {_KIND_FIELDS}
+  def _call(self):
+    return self.x
+""",
+    'k-wrapper': """import pyglove as pg
+class C08Plain:
+  def __init__(self, x=1, d=None, l=None):
+    self.x, self.d, self.l = x, d, l
+C08Wrapped = pg.symbolize(C08Plain)
+""",
+    'k-contextual': f"""import pyglove as pg
+A = pg.typing.Any
+class C08Ctx(pg.ContextualObject):
+  allow_symbolic_assignment = True
+  {_KIND_FIELDS}
+""",
+    'k-kwargs': """import pyglove as pg
+A = pg.typing.Any
+@pg.members([('x', A(default=1)), ('d', A(default=None)),
+             ('l', A(default=None)), (pg.typing.StrKey(), A())])
+class C08Kw(pg.Object):
+  allow_symbolic_assignment = True
+""",
+    'k-hooked': f"""import pyglove as pg
+A = pg.typing.Any
+class C08Hook(pg.Object):
+  allow_symbolic_assignment = True
+  {_KIND_FIELDS}
+  def _on_bound(self):
+    super()._on_bound()
+    self.seen = getattr(self, 'seen', 0) + 1
+  def _on_change(self, updates):
+    super()._on_change(updates)
+""",
+    'k-compound': f"""import pyglove as pg
+A = pg.typing.Any
+class C08Base(pg.Object):
+  {_KIND_FIELDS}
+@pg.compound(C08Base)
+def c08comp(x=1, d=None, l=None):
+  return C08Base(x=x, d=d, l=l)
+""",
+})
+
 _NS = {}
 for _src in PRE.values():
   exec(compile(_src, '<c08-preamble>', 'exec'), _NS)  # pylint: disable=exec-used
@@ -70,6 +127,24 @@ TREES = {
     'spec': ("pg.Dict(n=3, l=[3, 1, 2], s=dict(u=1, w=2), extra=5, "
              "value_spec=C08SPEC)", 'spec'),
 }
+
+BASE_TREES = tuple(TREES)
+
+_KIND_ARGS = 'x=2, d=pg.Dict(p=1), l=pg.List([3, 1])'
+KINDS = {
+    # tree name: (case-id label, constructor)
+    'k-functor': ('functor', 'c08fn'),
+    'k-subfunctor': ('subclassed-functor', 'C08SubFn'),
+    'k-wrapper': ('class-wrapper', 'C08Wrapped'),
+    'k-contextual': ('contextual-object', 'C08Ctx'),
+    'k-kwargs': ('kwargs-object', 'C08Kw'),
+    'k-hooked': ('object-with-change-hooks', 'C08Hook'),
+    'k-compound': ('compound', 'c08comp'),
+}
+for _k, (_label, _ctor) in KINDS.items():
+  _extra = ', zz=3' if _k == 'k-kwargs' else ''
+  TREES[_k] = (f'pg.Dict(h={_ctor}({_KIND_ARGS}{_extra}), t=5)', _k)
+KIND_TREES = tuple(KINDS)
 
 
 def pre_of(tree):
@@ -144,7 +219,8 @@ def hits_sealed(prot, addr_path, target, name):
   sealed at `prot`?  Rebinder functions visit the whole subtree."""
   if prot is None:
     return False
-  if name.endswith('rebind/fn'):
+  if name.endswith('rebind/fn') or name.split('|')[0] in SUBTREE_OPS or any(
+      name.endswith(':' + o) for o in SUBTREE_OPS):
     return is_within(prot, addr_path) or is_within(addr_path, prot)
   return is_within(target, prot)
 
@@ -225,6 +301,9 @@ LIST_OPS = [
      'n.rebind({0: 99}, skip_notification=True)'),
     ('list.rebind/no-notify-parents', 'rebind',
      'n.rebind({0: 99}, notify_parents=False)'),
+    ('list.setitem/missing-value', 'acc', 'n[0] = pg.MISSING_VALUE'),
+    ('list.rebind/raise_on_no_change=False', 'rebind',
+     'n.rebind({0: 99}, raise_on_no_change=False)'),
 ]
 DICT_OPS = [
     ('dict.setitem/existing', 'acc', f'n[{LAST}] = 99'),
@@ -257,6 +336,14 @@ DICT_OPS = [
      f'n.rebind({{{LAST}: 99}}, skip_notification=True)'),
     ('dict.rebind/no-notify-parents', 'rebind',
      f'n.rebind({{{LAST}: 99}}, notify_parents=False)'),
+    ('dict.setitem/missing-value', 'acc', f'n[{LAST}] = pg.MISSING_VALUE'),
+    ('dict.setattr/missing-value', 'acc',
+     f'setattr(n, {LAST}, pg.MISSING_VALUE)'),
+    ('dict.rebind/raise_on_no_change=False', 'rebind',
+     f'n.rebind({{{LAST}: 99}}, raise_on_no_change=False)'),
+    ('dict.use_value_spec/adds-default', 'meth',
+     "n.use_value_spec(pg.typing.Dict([('zd', pg.typing.Int(default=7)), "
+     "(pg.typing.StrKey(), pg.typing.Any())]))"),
 ]
 OBJ_OPS = [
     ('object.setattr', 'acc', 'n.x = 99'),
@@ -274,7 +361,49 @@ OBJ_OPS = [
      'n.rebind(x=99, skip_notification=True)'),
     ('object.rebind/no-notify-parents', 'rebind',
      'n.rebind(x=99, notify_parents=False)'),
+    # `del obj.attr` exists for functors (discard a bound argument); for the
+    # other kinds the reference decides whether it is a mutation at all.
+    ('object.delattr/symbolic-value', 'acc', 'del n.d'),
+    ('object.delattr/builtin', 'acc', "delattr(n, 'l')"),
+    ('object.delattr/dynamic-field', 'acc', 'del n.zz'),
+    ('object.setattr/missing-value', 'acc', 'n.x = pg.MISSING_VALUE'),
+    ('object.setattr/dynamic-field', 'acc', 'n.zz = 99'),
+    ('object.setitem', 'acc', "n['x'] = 99"),
+    ('object.delitem', 'acc', "del n['x']"),
+    ('object.call/override-args', 'meth', 'n(x=5, override_args=True)'),
+    ('object.rebind/raise_on_no_change=False', 'rebind',
+     "n.rebind({'x': 99}, raise_on_no_change=False)"),
 ]
+# Module-level helpers that modify their argument in place (through rebind);
+# they visit the whole subtree below `n`.  Applicable at every node kind.
+ANY_OPS = [
+    ('pg.patch/dict-rule', 'rebind', 'pg.patch(n, {KEY: 99})'),
+    ('pg.patch/fn-rule', 'rebind',
+     'pg.patch(n, lambda k, v, p: 77 if isinstance(v, int) else v)'),
+    ('pg.patch_on_key', 'rebind', "pg.patch_on_key(n, '.*', 77)"),
+    ('pg.patch_on_path', 'rebind', "pg.patch_on_path(n, '.*', 77)"),
+    ('pg.patch_on_value', 'rebind', 'pg.patch_on_value(n, 1, 77)'),
+    ('pg.patch_on_type', 'rebind',
+     'pg.patch_on_type(n, int, value_fn=lambda v: v + 100)'),
+    ('pg.patch_on_member', 'rebind',
+     "pg.patch_on_member(n, pg.Object, 'x', 77)"),
+]
+SUBTREE_OPS = {o[0] for o in ANY_OPS if o[0] != 'pg.patch/dict-rule'}
+# Other scoped flags must not lift (or add) any protection.
+OTHER_SCOPES = [
+    ('notify_on_change(False)', 'pg.notify_on_change(False)'),
+    ('enable_type_check(False)', 'pg.enable_type_check(False)'),
+    ('allow_partial(True)', 'pg.allow_partial(True)'),
+    ('track_origin(True)', 'pg.track_origin(True)'),
+]
+WRAPPED_BASE = {
+    'list': ('list.setitem/index', 'list.delitem/index', 'list.append',
+             'list.rebind/index'),
+    'dict': ('dict.setitem/new', 'dict.delitem', 'dict.update/kwargs',
+             'dict.rebind/kwargs'),
+    'object': ('object.setattr', 'object.delattr',
+               'object.setattr/missing-value', 'object.rebind/kwargs'),
+}
 OPS = {'list': LIST_OPS, 'dict': DICT_OPS, 'object': OBJ_OPS}
 _OP_CODE = {}
 for _ops in OPS.values():
@@ -537,7 +666,7 @@ def drv_sealed_flag(tier, seed):
       'symbolic node sealed x every list/dict/object mutator (36+26+11 ops, '
       'incl. sym_init_args dict of objects, rebind through each ancestor) '
       'at every node; then seal(False) and the same ops again')
-  for tree in TREES:
+  for tree in BASE_TREES:
     proto = build(tree)
     paths = [p for p, _ in sym_nodes(proto)]
     ops = all_ops_at(proto)
@@ -649,7 +778,7 @@ def drv_sealed_scopes(tier, seed):
   ]
   if tier == 'quick':
     core = core[:2] + core[3:6]
-  for tree in TREES:
+  for tree in BASE_TREES:
     proto = build(tree)
     ops = all_ops_at(proto)
     for seal_root, stack in core:
@@ -671,7 +800,7 @@ def drv_sealed_scopes(tier, seed):
              'dict.rebind/kwargs', 'dict.update/kwargs', 'object.setattr',
              'object.rebind/kwargs', 'list.sort/reverse', 'dict.clear',
              'list.delitem/index', 'dict.delitem'}
-  for tree in TREES:
+  for tree in BASE_TREES:
     proto = build(tree)
     paths = [p for p, _ in sym_nodes(proto)]
     inner = paths[1]
@@ -774,7 +903,7 @@ def drv_accessor(tier, seed):
       (False, (True,)), (False, (None,)), (False, (False, True)),
       (False, (True, None)), (True, (False,)), (True, (False, None)),
       (True, (True, False))}
-  for tree in TREES:
+  for tree in BASE_TREES:
     proto = build(tree)
     node_addrs = [(a, k) for a, k in addresses(proto)]
     anc_ops = ancestor_rebind_ops(proto)
@@ -851,7 +980,7 @@ def drv_accessor(tier, seed):
       (True, (False,), False, ()), (True, (False,), None, (False,)),
       (False, (), False, (True, None)), (True, (None,), True, (False,)),
   ]
-  for tree in TREES:
+  for tree in BASE_TREES:
     proto = build(tree)
     for seal_root, sstack, flag, astack in (
         combos[:4] if tier == 'quick' else combos):
